@@ -76,9 +76,6 @@ class Ex(StmtMixin, ExprMixin, CallMixin, CompMixin):
     if self.pure_mode:
       return
     goal = self._wrap(goal)
-    g = z3.simplify(goal)
-    if z3.is_true(g):
-      return
     n = self.obl_count.get(kind, 0)
     self.obl_count[kind] = n + 1
     key = (self.top_contract.label, kind, self.dec.prefix(), n)
